@@ -505,13 +505,30 @@ class FixedWidthBinning(BinningBase):
     def is_regular(self, **kwargs) -> bool:
         return True
 
+    def _edge(self, index: int) -> float:
+        """Edge with a given grid index (computed exactly as in numpy_bins)."""
+        return index * self._bin_width + self._shift
+
+    def _grid_index(self, value) -> int:
+        """Index of the grid bin [edge(index), edge(index + 1)) that contains the value."""
+        index = int(np.floor((value - self._shift) / self.bin_width))
+        # The division is only an estimate, e.g. 1.7 / 0.1 == 17.0 but 17 * 0.1 > 1.7,
+        # so it is corrected against the edges as they are really computed.
+        if self._edge(index) > value:
+            index -= 1
+        elif self._edge(index + 1) <= value:
+            index += 1
+        return index
+
     def _force_bin_existence_single(self, value, includes_right_edge=None):
         if includes_right_edge is None:
             includes_right_edge = self.includes_right_edge
 
         if self._bin_count == 0:
-            self._times_min = int(np.floor((value - self._shift) / self.bin_width))
-            if not self._align:
+            if self._align:
+                self._times_min = self._grid_index(value)
+            else:
+                self._times_min = int(np.floor((value - self._shift) / self.bin_width))
                 self._shift = value - self._times_min * self.bin_width
             self._bin_count = 1
             self._bins = None
@@ -520,16 +537,15 @@ class FixedWidthBinning(BinningBase):
         else:
             add_left = add_right = 0
             if value < self.numpy_bins[0]:
-                add_left = int(np.ceil((self.numpy_bins[0] - value) / self.bin_width))
+                add_left = self._times_min - self._grid_index(value)
                 self._times_min -= add_left
                 self._bin_count += add_left
             elif value >= self.numpy_bins[-1]:
-                add_right = (value - self.numpy_bins[-1]) / self.bin_width
-                add_right = int(np.ceil(add_right))
+                index = self._grid_index(value)
+                add_right = index - (self._times_min + self._bin_count) + 1
+                if includes_right_edge and self._edge(index) == value:
+                    add_right -= 1  # The value is the (included) right edge of the last bin
                 self._bin_count += add_right
-                if self.last_edge == value and not includes_right_edge:
-                    add_right += 1
-                    self._bin_count += 1
             if add_left or add_right:
                 self._bins = None
                 self._numpy_bins = None
